@@ -85,10 +85,10 @@ GEV = '_ZNK6Qentem12TemplateCoreIc8SymValueIcE11FixedStreamIcLj8EEE18GetExpressi
 EVL = '_ZNK6Qentem12TemplateCoreIc8SymValueIcE11FixedStreamIcLj8EEE8evaluateERNS_11QExpressionERPKS6_NS6_10QOperationE'
 def prec_queries(tier):
     qs = []
-    kmax = 4 if tier == 'quick' else 5
     def PQ(name, entry, d, stubs, b, rb, **kw):
-        qs.append(Query(name, 'C04_prec.cpp', entry, d, bounds=b, rec_bounds=rb, default_rec=2, stubs=stubs, cflags=PRIV, mem_gb=8, timeout=900, replay='none', extra_cbmc=['--object-bits', '11'], **kw))
-    for k in range(1, kmax + 1):
+        qs.append(Query(name, 'C04_prec.cpp', entry, d, bounds=b, rec_bounds=rb, default_rec=2, stubs=stubs, cflags=PRIV, mem_gb=8, timeout=900, replay='none', **kw))
+    # whole recursion (no contract) on short lists: cross-check of the modular argument; documented levels with exact arithmetic
+    for k in range(1, (2 if tier == 'quick' else 3) + 1):
         d = {'K': k, 'VB': 2}
         # destructors of evaluate()'s locals never own a sub-list: bound 1 (the unwinding assertions prove it)
         b = {'_ZN6Qentem5ArrayINS_11QExpressionEED2Ev': 1, '_ZN6Qentem11QExpressionD2Ev': 1, 'pick_list|build.*|h_.*': k + 1, 'climb_.*': max(k, 2), 'ambiguous': k + 1,
@@ -97,6 +97,25 @@ def prec_queries(tier):
         for entry, stub in (('h_tree', 'fn_tree'), ('h_doc', 'fn_arith'), ('h_fail', 'fn_fail')):
             if entry == 'h_fail' and k == 1: continue
             PQ('prec/%s/K%d' % (entry[2:], k), entry, d, {EVX: stub, GEV: 'fn_gev'}, b, rb)
+    for k in range(2, (4 if tier == 'quick' else 5) + 1):
+        PQ('prec/docfine/K%d' % k, 'h_docfine', {'K': k, 'VB': 2}, {}, {'pick_list|h_.*|yard|ambiguous': k + 1, 'arith': 5}, {})
+    # one frame of evaluate() against the contract of its own recursive call (self_stubs): lists of up to KM items, any starting rank
+    KM = 6 if tier == 'quick' else 8
+    KFP = 'C04-prec-return'
+    for k in range(1, KM + 1):
+        b = {'_ZN6Qentem5ArrayINS_11QExpressionEED2Ev': 1, '_ZN6Qentem11QExpressionD2Ev': 1, 'pick_list|build.*|h_.*': k + 1, 'ref_tree|first_leq|fn_eval_contract|frame_hits_finding': k + 1,
+             'evaluate': k + 1}
+        rb = {'~QExpression': 1, '.*Array.*': 1}
+        st = {EVX: 'fn_tree_f', GEV: 'fn_gev'}; ss = {EVL: 'fn_eval_contract'}
+        for nm, extra in (('frame', {}), ('frame-fail', {'WITH_FAILURE': 1})):
+            d = {'K': k, 'VB': 2}; d.update(extra)
+            if MANUAL_KF: d['KF_EXCL_C04_prec_return'] = 1
+            PQ('prec/%s/K%d' % (nm, k), 'h_frame', d, st, b, rb, self_stubs=ss, **({} if MANUAL_KF else {'kf_excl': [KFP]}))
+    d = {'K': 4, 'VB': 2}
+    b = {'_ZN6Qentem5ArrayINS_11QExpressionEED2Ev': 1, '_ZN6Qentem11QExpressionD2Ev': 1, 'pick_list|build.*|h_.*': 5, 'ref_tree|first_leq|fn_eval_contract|frame_hits_finding': 5, 'evaluate': 5}
+    if MANUAL_KF: d['KF_ONLY_C04_prec_return'] = 1
+    qs.append(Query('prec/frame/kf-return', 'C04_prec.cpp', 'h_frame', d, bounds=b, rec_bounds={'~QExpression': 1, '.*Array.*': 1}, stubs={EVX: 'fn_tree_f', GEV: 'fn_gev'},
+                    self_stubs={EVL: 'fn_eval_contract'}, cflags=PRIV, mem_gb=8, timeout=900, replay=('C04_lift.cpp', 'lift_prec'), **({} if MANUAL_KF else {'kf_only': KFP})))
     PQ('prec/rank', 'h_rank', {'K': 1}, {}, {}, {})
     for t, nm in ((1, 'real'), (2, 'nat'), (3, 'int'), (4, 'text'), (5, 'var'), (6, 'sub')):
         PQ('prec/gev/%s' % nm, 'h_gev', {'K': 1, 'ITYPE': t}, {EVL: 'fn_evaluate'},
@@ -118,12 +137,12 @@ def parse_queries(tier):
     qs = []
     N = 4 if tier == 'quick' else 6
     for l in range(1, N + 1):
-        b = {'vf_buf.*': l + 1, 'getOperation|isExpression|ref_next|ref_binary': l + 1, 'h_driver|parseExpressions': l + 2, 'h_value|TrimLeft|TrimRight|parseValue': l + 1,
-             'Dispose|~Array|Array|operator\\+=|Insert|.*QExpression.*|fn_.*': 3, 'vf_mem.*': 40}
+        b = {'vf_buf.*': l + 1, 'getOperation|isExpression|ref_next|ref_binary': l + 1, 'h_driver|parseExpressions': l + 2,
+             'Dispose|~Array|Array|Reserve|.*QExpression.*|fn_.*': 1, 'vf_mem.*': 40}
         d = {'L': l}
         qs.append(pq('parse/getop/L%d' % l, 'h_getop', d, kf_excl=[KF_OOB], bounds=b, cflags=PRIV, timeout=600))
         qs.append(pq('parse/isexpr/L%d' % l, 'h_isexpr', d, bounds=b, cflags=PRIV, timeout=600))
-        qs.append(pq('parse/driver/L%d' % l, 'h_driver', d, kf_excl=[KF_OOB], bounds=b, cflags=PRIV + ['-fno-inline'], stubs={PVAL: 'fn_parse_value'}, replay='none', timeout=900))
+        qs.append(pq('parse/driver/L%d' % l, 'h_driver', d, kf_excl=[KF_OOB], bounds=b, cflags=PRIV, stubs={PVAL: 'fn_parse_value'}, replay='none', timeout=900))
     qs.append(pq('parse/getop/kf-oob', 'h_getop', {'L': 2}, kf_only=KF_OOB, bounds={'vf_buf.*': 3, 'getOperation|isExpression|ref_next|ref_binary': 3}, cflags=PRIV, timeout=300))
     for l in ([2, 4, 8] if tier == 'quick' else [1, 2, 3, 4, 5, 6, 8, 9]):
         b = {'vf_buf.*': l + 1, 'h_value|TrimLeft|TrimRight|parseValue': l + 1, 'Dispose|~Array|Array|operator\\+=|Insert|.*QExpression.*|fn_.*|Copy': 3, 'vf_mem.*': 40}
